@@ -27,6 +27,9 @@ import (
 
 const LogID = "verif-log"
 
+// OlderLogID is the id of the history that continued logs are built on top of (Prog.Continued).
+const OlderLogID = "verif-older-log"
+
 type Op struct {
 	Kind    string `json:"k"`           // append | join | selfjoin | joinempty | joinother | setid | rebuild
 	A       int    `json:"a"`           // replica (mod n)
@@ -47,6 +50,7 @@ type Prog struct {
 	Clocks        []int `json:"clocks,omitempty"`        // initial clock time per replica (LogOptions.Clock)
 	Conc          []int `json:"conc,omitempty"`          // LogOptions.Concurrency per replica (0 = default)
 	Preload       []int `json:"preload,omitempty"`       // per replica: starts with the first n entries of one long shared history (large logs)
+	Continued     int   `json:"continued,omitempty"`     // n > 0: the log continues, under its own id, the first n entries of a history written under ANOTHER log id; every replica starts holding them
 	Wide          []int `json:"wide,omitempty"`          // per replica: starts holding that many independent short histories (as many heads)
 	ReplicaOrders []int `json:"replicaOrders,omitempty"` // SortFn of replica i when it differs from the world's (-1 / absent: the world's ordering)
 	ClockIDs      []int `json:"clockIds,omitempty"`      // id carried by the LogOptions.Clock of a replica with an initial clock: 0 its own key, 1 another writer's key, 2 empty
@@ -124,6 +128,7 @@ type GenConfig struct {
 	WithLoad    bool // include "load": the replica restarts from the store (manifest / JSON heads / head entries)
 	AppendBias  int  // extra weight for appends
 	WideOneIn   int  // > 0: about one program in that many starts every replica with 21-40 independent short histories (many heads)
+	ContinuedOneIn int // > 0: about one program in that many is a log that continues the history of another log (see Prog.Continued)
 	LargeOneIn  int  // > 0: about one program in that many starts every replica from a prefix of one long shared history (> 1000 entries)
 }
 
@@ -164,6 +169,9 @@ func Gen(t *rapid.T, cfg GenConfig) Prog {
 		for i := 0; i < n; i++ {
 			p.Wide = append(p.Wide, rapid.SampledFrom([]int{21, 24, 30, 40}).Draw(t, "wideN"))
 		}
+	}
+	if cfg.ContinuedOneIn > 0 && len(p.Preload) == 0 && len(p.Wide) == 0 && rapid.IntRange(0, cfg.ContinuedOneIn-1).Draw(t, "continued") == cfg.ContinuedOneIn*2/3 {
+		p.Continued = rapid.IntRange(1, 9).Draw(t, "continuedN")
 	}
 	p.Order = rapid.SampledFrom(cfg.Orders).Draw(t, "order")
 	p.Codec = rapid.SampledFrom(cfg.Codecs).Draw(t, "codec")
@@ -285,6 +293,18 @@ func New(tb ev.TB, p *Prog) *World {
 			}
 			lo.Entries = entry.NewOrderedMapFromEntries(es)
 			lo.Heads = tips // with the heads given the log's clock starts at their largest time
+		}
+		if p.Continued > 0 && lo.Entries == nil {
+			es, raws := world.LongChain(world.Codec(p.Codec), OlderLogID, p.Continued)
+			for k, e := range es {
+				if !w.Reg.Has(e.GetHash().String()) {
+					w.Reg.Record(e)
+					w.Store.PutRaw(e.GetHash(), raws[k])
+				}
+				model.Add(e.GetHash().String())
+			}
+			lo.Entries = entry.NewOrderedMapFromEntries(es)
+			lo.Heads = es[len(es)-1:]
 		}
 		order := w.Order
 		if i < len(p.ReplicaOrders) && p.ReplicaOrders[i] >= 0 {
@@ -475,7 +495,9 @@ func (w *World) Exec(tb ev.TB, idx int, op Op, sync bool) *OpInfo {
 			w.HadPartial = true
 		}
 	case "load":
-		if len(r.Model) == 0 || world.Codec(w.Prog.Codec) == world.CodecPB {
+		if len(r.Model) == 0 || world.Codec(w.Prog.Codec) == world.CodecPB || (w.Prog.Continued > 0 && len(r.Model) <= w.Prog.Continued) {
+			// (a log that continues another log's history and has no entry of its own yet is not reloaded: the loader
+			// that is handed head entries only has nothing to tell the log's id by - see DESIGN §7)
 			info.Skipped = true
 			break
 		}
